@@ -109,6 +109,38 @@ def check(rep, tier, seed):
     dis += [(l, a, b) for l, a, b in zip(chl, cimpl, cmod) if a != b]
     sbad = [(c, l, a) for c, l, a, b in zip(scuts, chl, cimpl, cmod) if not a.startswith("err ") and b.startswith("err ")]
     rep.coverage["cross_version_cuts_static"] = {"pairs": len(sc), "prefixes": len(scuts), "accepted": len(sbad)}
+    # concrete element types (the dynamic route's element type is the harness's own value type): long vectors and lists
+    # of numbers - lengths on both sides of 1024 - cut at sampled positions
+    mrng = C.rng_for(seed, "C08m")
+    ml, mmeta = [], []
+    for ty, p in (("(vec i64)", "i64"), ("(vec u32)", "u32"), ("(vec i128)", "i128"), ("(vec u16)", "u16"), ("(vec i8)", "i8"),
+                  ("(vec bool)", "bool"), ("(ll i64)", "i64"), ("(vec u8)", "u8")):
+        for n in (0, 1, 3, 1023, 1024, 1025, 1500) if tier == "quick" else (0, 1, 3, 100, 1023, 1024, 1025, 1500, 4096, 5000):
+            items = [G.gen_prim_value(mrng, p) for _ in range(n)]
+            val = ("b" + ("".join("%02x" % int(x[1:]) for x in items) or "-")) if ty == "(vec u8)" else "(0" + "".join(" " + x for x in items) + ")"
+            ml.append(f"mrt {ty} {val} -")
+            mmeta.append(ty)
+    menc = C.run_sharded(harness, "static", ml, swd, "mono.enc", shards=8)
+    mcl, mcm = [], []
+    for ty, l, a in zip(mmeta, ml, menc):
+        if not a.startswith("ok ") or not a.endswith(" 0"):
+            bad.append(({"env": "-", "cmd": "mrt", "ty": ty, "hex": "-", "_k": 0, "_full": 0}, a))
+            continue
+        hx = a.split(" ")[1]
+        if hx == "-":
+            continue
+        nb = len(hx) // 2
+        ks = sorted(set(list(range(min(nb, 10))) + list(range(max(0, nb - 10), nb)) + [mrng.randrange(nb) for _ in range(30)]))
+        for k in ks:
+            mcl.append(f"mdec {ty} {hx[:2 * k] or '-'}")
+            mcm.append((ty, k, nb))
+    mdec = C.run_sharded(harness, "static", mcl, swd, "mono.cut", shards=8)
+    mbad = [(m, l, a) for m, l, a in zip(mcm, mcl, mdec) if not a.startswith("err ")]
+    rep.coverage["concrete_long_vector_cuts"] = {"encodings": len(ml), "prefixes": len(mcl), "accepted": len(mbad)}
+    if mbad and not bad:
+        (ty, k, nb), l, a = mbad[0]
+        rep.violation(f"a strict prefix ({k} of {nb} bytes) of a {ty} is accepted: {l[:100]}... -> {a[:80]}",
+                      {"kind": "case", "case": l[:4000], "implementation": a[:400], "cut": k, "of": nb, "n_failing": len(mbad)})
     C.proof_coverage(rep, ob, "C08")
     lines = [C.codec_line(c) for c in cuts]
     errs = {}
@@ -148,4 +180,4 @@ def check(rep, tier, seed):
         rep.violation(f"a strict prefix ({c['_k']} of {c['_full']} bytes) is not rejected: {C.codec_line(c)[:160]} -> {a[:80]}",
                       {"kind": "case", "env": c["env"], "case": C.codec_line(c), "implementation": a,
                        "cut": c["_k"], "of": c["_full"], "n_failing": len(bad)})
-    C.report_broken(rep, ob, dis, "codec/dec-prefix", bool(bad) or bool(xbad) or bool(ubad) or bool(sbad))
+    C.report_broken(rep, ob, dis, "codec/dec-prefix", bool(bad) or bool(xbad) or bool(ubad) or bool(sbad) or bool(mbad))
